@@ -125,7 +125,15 @@ EXTRA7 = {
     "C19": "Sibling agreement inside the engine: constant-folding tables vs emitted operators, merged context view vs lookup order.",
     "C20": "The page a type link names lists the entry; the url filter is used through the templates only (page-depth prefix).",
 }
+EXTRA8 = {
+    "C01": "R-C01-CLAMP: recognised saturation clamps store the bound they test, lower bound from below, upper from above; R-C01-TAG: union options are numbered by loop.index0 everywhere the position is printed, C++ chains select on equality.",
+    "C02": "Raw-read guards are exact (cursor < capacity or cursor + positive length <= capacity); Python length-prefix and delimiter-header refusals judged per path (exact comparison, read -> refuse -> use); R-C02-TAG as R-C01-TAG; {% call %} scaffolds and helper macros are read in their callers.",
+    "C09": "_encode is read with its private helpers written out (value and procedure helpers).",
+    "C19": "UseQuery.parse is read with private methods written out and class constants in place (flag tables).",
+}
 for _k, _v in EXTRA7.items():
+    EXTRA[_k] = (EXTRA.get(_k, "") + " " + _v).strip()
+for _k, _v in EXTRA8.items():
     EXTRA[_k] = (EXTRA.get(_k, "") + " " + _v).strip()
 for _k, _v in EXTRA.items():
     P[_k]["text"] = P[_k]["text"] + " " + _v
